@@ -68,12 +68,52 @@ pub fn run(r: &mut Report) {
     ] {
         cases.push(C { id, ap: vec![(a_product, 1)], bm: vec![(material, 1)], bp: vec![], rules: vec![mtch("*", src_prefix, Artifact::Products, dst_prefix, "a"), dis()], prules: allow_all(), expect });
     }
+    // wildcards cover dot-files and dot-directories (fnmatch semantics of the specification: no special treatment of a leading dot)
+    for (id, path) in [("dotfile", ".env"), ("dotfile-in-dir", "out/.backdoor"), ("dot-directory", ".git/config")] {
+        cases.push(C { id: match id { "dotfile" => "disallow-star-sees-dotfile", "dotfile-in-dir" => "disallow-star-sees-dotfile-in-dir", _ => "disallow-star-sees-dot-directory" },
+                       ap: vec![], bm: vec![(path, 1)], bp: vec![], rules: vec![dis()], prules: allow_all(), expect: false });
+        cases.push(C { id: match id { "dotfile" => "allow-star-consumes-dotfile", "dotfile-in-dir" => "allow-star-consumes-dotfile-in-dir", _ => "allow-star-consumes-dot-directory" },
+                       ap: vec![], bm: vec![(path, 1)], bp: vec![], rules: vec![ArtifactRule::Allow(vp("*")), dis()], prules: allow_all(), expect: true });
+        cases.push(C { id: match id { "dotfile" => "match-star-consumes-dotfile", "dotfile-in-dir" => "match-star-consumes-dotfile-in-dir", _ => "match-star-consumes-dot-directory" },
+                       ap: vec![(path, 1)], bm: vec![(path, 1)], bp: vec![], rules: vec![mtch("*", None, Artifact::Products, None, "a"), dis()], prules: allow_all(), expect: true });
+    }
+    cases.push(C { id: "create-star-consumes-created-dotfile", ap: vec![], bm: vec![], bp: vec![(".buildinfo", 1)], rules: allow_all(), prules: vec![ArtifactRule::Create(vp("*")), ArtifactRule::Disallow(vp(".*"))], expect: true });
+    cases.push(C { id: "question-mark-and-class-cover-a-dot", ap: vec![], bm: vec![(".a", 1)], bp: vec![], rules: vec![ArtifactRule::Allow(vp("?a")), dis()], prules: allow_all(), expect: true });
     for c in cases {
         let res = run_two(&c.ap, &c.bm, &c.bp, c.rules.clone(), c.prules.clone());
         r.case(c.id, json!({"a_products": c.ap, "b_materials": c.bm, "b_products": c.bp, "material_rules": format!("{:?}", c.rules), "product_rules": format!("{:?}", c.prules)}),
                if c.expect { "Ok" } else { "Err" }, format!("{:?}", res), res == Ok(c.expect));
     }
     multi_alg(r, 1, "match-multi-algorithm");
+    state_matrix(r);
+}
+
+/// artifact state (created / deleted / modified / unchanged) x consuming rule kind x rule list (materials / products): `K *; DISALLOW *`
+/// passes exactly when the artifact is not in that list's queue at all, or `K` is the rule for the artifact's state (or ALLOW)
+fn state_matrix(r: &mut Report) {
+    #[derive(Clone, Copy, Debug, PartialEq)] enum S { Created, Deleted, Modified, Unchanged }
+    #[derive(Clone, Copy, Debug, PartialEq)] enum K { Create, Delete, Modify, Allow, MatchNothing, None }
+    for pat in ["*", "f", "f*"] {
+    for s in [S::Created, S::Deleted, S::Modified, S::Unchanged] {
+        let (bm, bp): (Vec<(&str, u8)>, Vec<(&str, u8)>) = match s { S::Created => (vec![], vec![("f", 1)]), S::Deleted => (vec![("f", 1)], vec![]),
+            S::Modified => (vec![("f", 1)], vec![("f", 2)]), S::Unchanged => (vec![("f", 1)], vec![("f", 1)]) };
+        for k in [K::Create, K::Delete, K::Modify, K::Allow, K::MatchNothing, K::None] {
+            for on_products in [false, true] {
+                let mut rules = match k { K::Create => vec![ArtifactRule::Create(vp(pat))], K::Delete => vec![ArtifactRule::Delete(vp(pat))], K::Modify => vec![ArtifactRule::Modify(vp(pat))],
+                    K::Allow => vec![ArtifactRule::Allow(vp(pat))], K::MatchNothing => vec![mtch(pat, None, Artifact::Products, None, "a")], K::None => vec![] };
+                rules.push(dis());
+                let in_queue = if on_products { !bp.is_empty() } else { !bm.is_empty() };
+                let consumed = k == K::Allow || (k == K::Create && s == S::Created) || (k == K::Delete && s == S::Deleted) || (k == K::Modify && s == S::Modified);
+                let expect = !in_queue || consumed;
+                let res = if on_products { run_two(&[], &bm, &bp, allow_all(), rules.clone()) } else { run_two(&[], &bm, &bp, rules.clone(), allow_all()) };
+                if res != Ok(expect) || pat == "*" {
+                    r.case("rule-kind-by-artifact-state", json!({"state": format!("{:?}", s), "rule": format!("{:?} {}", k, pat), "list": if on_products { "expected_products" } else { "expected_materials" }}),
+                           if expect { "Ok" } else { "Err" }, format!("{:?}", res), res == Ok(expect));
+                }
+            }
+        }
+    }
+    }
 }
 
 /// artifacts recorded with two hash algorithms that agree in one and differ in the other are different artifacts: MATCH must not
